@@ -500,6 +500,8 @@ class Exec:
 
     # ------------------------------------------------------------ truthiness / merge
     def truth(self, v):
+        if isinstance(v, OpaqueV) and self.opaque_mode():
+            return self.fresh("opaque_truth", BOOL)         # nothing is known about an opaque value
         if isinstance(v, PStr):
             return STRLEN(v.t) != 0
         if is_bool(v):
@@ -520,6 +522,8 @@ class Exec:
     def merge_val(self, c, a, b):
         if a is b:
             return a
+        if isinstance(a, OpaqueV) and isinstance(b, OpaqueV):
+            return OpaqueV("merged")
         if is_int(a) and is_int(b):
             return simp(z3.If(c, a, b)) if not a.eq(b) else a
         if is_bool(a) and is_bool(b):
@@ -689,6 +693,8 @@ class Exec:
         raise Unsupported(f"binary op {type(op).__name__}")
 
     def cmp(self, op, a, b, fr, node):
+        if self.opaque_mode() and (isinstance(a, OpaqueV) or isinstance(b, OpaqueV)):
+            return self.fresh("opaque_cmp", BOOL)           # nothing is known about an opaque value
         if isinstance(op, (ast.Is, ast.IsNot)):
             if b is NONE or a is NONE:
                 other = a if b is NONE else b
@@ -764,6 +770,8 @@ class Exec:
 
     def ev_Subscript(self, node, fr):
         base = self.ev(node.value, fr)
+        if isinstance(base, OpaqueV) and self.opaque_mode():
+            return OpaqueV(base.what + "[]")
         s = self.seq(base)
         if s is None and isinstance(base, SeqV):
             s = base
@@ -786,6 +794,11 @@ class Exec:
         idx = simp(z3.If(i < 0, i + s.n, i)) if not fr.spec else i
         return s.get(idx)
 
+    def ev_Dict(self, node, fr):
+        if node.keys:
+            raise Unsupported("non-empty dict literal")
+        return DictV(lambda t: z3.BoolVal(False), lambda t: z3.BoolVal(False))
+
     def ev_Attribute(self, node, fr):
         base = self.ev(node.value, fr)
         return self.getattr(base, node.attr, fr, node)
@@ -806,7 +819,7 @@ class Exec:
             return OpaqueV(base.what + "." + attr)
         if isinstance(base, PStr) and attr in ("isdigit", "lower", "strip"):
             return BuiltinV("pystr." + attr, recv=base)
-        if isinstance(base, DictV) and attr in ("get",):
+        if isinstance(base, DictV) and attr in ("get", "clear"):
             return BuiltinV("dict." + attr, recv=base)
         o = self.obj(base)
         if o is not None:
@@ -1011,7 +1024,8 @@ class Exec:
             return self.inline_call(fi, env, fr)
         if con is not None and not con.inline and not (self.reg.current is con and con.allow_self_inline):
             return self.reg.apply_contract(self, con, fi, env, fr, node)
-        if self.reg.may_inline(fi) and not (self.opaque_mode() and fi.name not in ("__init__", "__len__") and fi.kind != "property"):
+        if self.reg.may_inline(fi) and not (self.opaque_mode() and fi.name not in ("__init__", "__len__")
+                                            and not (fi.kind == "property" and _simple_getter(fi))):
             return self.inline_call(fi, env, fr)
         if self.opaque_mode():
             return self.opaque_call(node, fi.qualname)
@@ -1101,8 +1115,38 @@ class Exec:
         return None
 
     # ---- builtins
+    def deep_copy(self, v, depth=0):
+        """copy.deepcopy of a record-like object: scalars and abstract dicts are values, nested objects
+        and sequences are copied"""
+        if depth > 6:
+            raise Unsupported("deepcopy depth")
+        o = self.obj(v)
+        if o is not None and self.seq(v) is None:
+            return self.alloc(ObjV(o.cls, {k: self.deep_copy(x, depth + 1) for k, x in o.fields.items()}))
+        sq = self.seq(v)
+        if sq is not None:
+            return self.alloc(SeqV(sq.kind, sq.get, sq.n, sq.lit))
+        return v
+
     def call_builtin(self, f, args, kwargs, fr, node):
         n = f.name
+        if n in ("copy.deepcopy", "copy.copy") and len(args) == 1:
+            if n == "copy.copy":
+                o = self.obj(args[0])
+                if o is None or self.seq(args[0]) is not None:
+                    raise Unsupported("copy.copy of a non-object")
+                return self.alloc(ObjV(o.cls, dict(o.fields)))
+            return self.deep_copy(args[0])
+        if n == "dict.clear":
+            # the abstract dict is a value held in a field: clearing = storing an empty one there
+            tgt = node.func.value if isinstance(node, ast.Call) and isinstance(node.func, ast.Attribute) else None
+            if not isinstance(tgt, ast.Attribute):
+                raise Unsupported("clear() of a dict that is not an attribute")
+            owner = self.obj(self.ev(tgt.value, fr))
+            if owner is None or not isinstance(owner.fields.get(tgt.attr), DictV):
+                raise Unsupported("clear() target")
+            owner.fields[tgt.attr] = DictV(lambda t: z3.BoolVal(False), owner.fields[tgt.attr].val)
+            return NONE
         if n == "len" and isinstance(args[0], PStr):
             return STRLEN(args[0].t)
         if n == "len":
@@ -1217,6 +1261,8 @@ class Exec:
             if s is None:
                 raise Unsupported(n + " arg")
             return self.alloc(s.with_kind(n))
+        if n == "isinstance" and self.opaque_mode() and isinstance(args[0], OpaqueV):
+            return self.fresh("opaque_isinstance", BOOL)
         if n == "isinstance":
             o = self.obj(args[0])
             if o is not None and isinstance(args[1], ClsV):
@@ -1244,6 +1290,8 @@ class Exec:
             if args and args[0] is NONE:
                 return dflt
             if k is None or not is_bool(dflt):
+                if self.opaque_mode():
+                    return OpaqueV("dict.get")
                 raise Unsupported("dict.get outside the supported shape (str key, bool default)")
             return simp(z3.If(f.recv.inn(k.t), f.recv.val(k.t), dflt))
         if n.startswith("seq."):
@@ -1315,6 +1363,17 @@ class Exec:
 
     def st_Pass(self, s, fr):
         pass
+
+    def st_ImportFrom(self, s, fr):
+        # function-local `from m import X`: bind X as module-level name resolution would
+        m = repo.load_module(s.module) if s.module and not s.level else None
+        for a in s.names:
+            if m is not None:
+                fr.env[a.asname or a.name] = self.lookup_name(a.name, Frame(None, m, {}, spec=fr.spec))
+            elif self.opaque_mode():
+                fr.env[a.asname or a.name] = OpaqueV("import:" + a.name)
+            else:
+                raise Unsupported(f"import of {s.module}.{a.name}")
 
     def st_Expr(self, s, fr):
         if isinstance(s.value, ast.Constant):
@@ -1739,7 +1798,13 @@ class Exec:
             self.check_invariants(spec, ordn, fr, "inv-pres")
             if var0 is not None:
                 var1 = self.reg.loop_variant(self, spec, fr)
-                self.oblige("variant", z3.And(var0 >= 0, var1 < var0), f"loop{ordn}")
+                if isinstance(var0, tuple):
+                    # lexicographic pair of non-negative measures
+                    (a0, b0), (a1, b1) = var0, var1
+                    self.oblige("variant", z3.And(a0 >= 0, b0 >= 0, z3.Or(a1 < a0, z3.And(a1 == a0, b1 < b0))),
+                                f"loop{ordn}")
+                else:
+                    self.oblige("variant", z3.And(var0 >= 0, var1 < var0), f"loop{ordn}")
             raise PathEnd()
         self.assume(z3.Not(c))
         if not self.feasible():
@@ -1756,6 +1821,9 @@ class Exec:
         if s.orelse:
             raise Unsupported("for-else")
         it = self.ev(s.iter, fr)
+        if self.opaque_mode() and isinstance(s.target, ast.Name) and not isinstance(it, RangeV) and \
+                (isinstance(it, OpaqueV) or (self.obj(it) is not None and self.seq(it) is None)):
+            return self.for_opaque(s, fr)
         if not isinstance(it, RangeV) or not isinstance(s.target, ast.Name):
             raise Unsupported(f"for over non-range in {self.fname}")
         ls = self.loop_spec(fr, s)
@@ -1802,6 +1870,39 @@ class Exec:
         self.run_loop(spec, ordn, fr, s.body, cond, step, pre_bind={var: mk})
         # after normal exit the loop variable must not be read (python leaves stop-1 / unbound)
         fr.env.pop(var, None)
+
+
+def _for_opaque(self, s, fr):
+    """`for x in <opaque iterable>` inside a function whose contract declares its calls opaque (an XML
+    element's children, a findall result): any number of iterations, every element an opaque value.
+    Invariants (inv_k) are optional: without one the loop still runs from a havoced state"""
+    ls = self.loop_spec(fr, s)
+    spec, ordn = ls if ls is not None else (None, self.loop_ordinal(fr, s))
+    var = s.target.id
+    n = self.fresh("n_elems")
+    self.pc.append(n >= 0)
+    cnt = {"v": None}
+
+    def mk():
+        v = self.fresh("it")
+        cnt["v"] = v
+        self.pc.append(z3.And(0 <= v, v <= n))
+        return OpaqueV("element:" + var)
+
+    def cond():
+        return cnt["v"] < n
+    self.run_loop(spec, ordn, fr, s.body, cond, None, pre_bind={var: mk})
+    fr.env.pop(var, None)
+
+
+Exec.for_opaque = _for_opaque
+
+
+def _simple_getter(fi):
+    """a property whose body is `return self.<attr>`: inlined even where calls are opaque"""
+    body = [st for st in fi.body() if not (isinstance(st, ast.Expr) and isinstance(st.value, ast.Constant))]
+    return len(body) == 1 and isinstance(body[0], ast.Return) and isinstance(body[0].value, ast.Attribute) \
+        and isinstance(body[0].value.value, ast.Name) and body[0].value.value.id == "self"
 
 
 def _preorder(node):
